@@ -417,6 +417,7 @@ Section Ties.
         (if body && Nat.ltb (length ys) (length xs) then [] else kernel_steps body true w' (resid_cb_tr k mp' zs) csum0 zs)
       /\ ts_vregx_resid_chk k body w mp xs ys =
         (if body && Nat.ltb (length ys) (length xs) then Panicked AssertFail
+         else if bad_window w xs then Panicked AssertFail
          else idx_run body w' (fun s a => snd (resid_cb_tr k mp' zs s a)) csum0 zs).
     Proof. intros k; destruct k; intros; subst zs w' mp'; rewrite sh_ok; repeat split; reflexivity. Qed.
   End Traces2.
